@@ -41,7 +41,7 @@ def main():
                         "pytest sktime/utils (%s), demo.py on the patched worktree (exit %d), worktree restored" % (clean, comp, tests, patched),
         "detected_by": detected,
         "detected_rules": rules,
-        "selftest": bool(detected) and "--selftest-off" not in sys.argv,
+        "selftest": (prop in detected) and "--selftest-off" not in sys.argv,
     }
     json.dump(meta, open(os.path.join(dst, "meta.json"), "w"), indent=1)
     return 0
